@@ -89,8 +89,9 @@ def gen_case(rng, tier):
         def_of = list(range(len(regs)))
     return {'names': names, 'dirs': dirs, 'regs': regs, 'def_of': def_of,
             'spell': rng.choice([None, None, None, '//', '/./']),
+            'same_tag': rng.random() < 0.25,
             'depth': rng.choice([0, 1, 2, 3, 7, 7, 9]),
-            'run_search': rng.random() < (0.2 if len(set(def_of)) < len(regs) else 0.05)}
+            'run_search': rng.random() < (0.2 if len(set(def_of)) < len(regs) else 0.08)}
 
 
 # ---- the harness's own reading of a name (no `re` on this path) -------------------------
@@ -169,7 +170,10 @@ def run_impl(case):
         # form must file a given file under the same key
         dsp = d if not case.get('spell') else tmp + case['spell'] + 'logs'
         def_of = case.get('def_of') or list(range(len(case['regs'])))
-        defs = [SearchDef(r'.*', tag=f't{i}') for i in range(len(case['regs']))]
+        # 'same_tag': distinct search objects that look alike (same pattern, same tag) are still
+        # distinct searches: each is run on every file it is registered for
+        defs = [SearchDef(r'.*', tag='t0' if case.get('same_tag') else f't{i}')
+                for i in range(len(case['regs']))]
         fs = FileSearcher(max_logrotate_depth=case['depth'])
         regs_out = []
         for i, r in enumerate(case['regs']):
@@ -305,7 +309,8 @@ def spec_check(case, impl):
             got = impl['searched'].get(p, {})
             exp = {}
             for s in set(ss):
-                exp[f't{s}'] = 2                       # every file has two lines
+                t = 't0' if case.get('same_tag') else f't{s}'
+                exp[t] = exp.get(t, 0) + 2             # every file has two lines
             if got != exp:
                 return (f"path {p}: matches per search {got}, expected each registered search "
                         f"once per line: {exp}")
